@@ -106,7 +106,7 @@ def run(ctx):
         cfg = open(os.path.join(vlib.SPECS, "MCBreak.cfg")).read()
         mod = 12 if ctx.quick() else 1
         if not ctx.quick():
-            cfg = cfg.replace("MaxEdits = 2", "MaxEdits = 3")
+            cfg = cfg.replace("MaxEdits = 2", "MaxEdits = 3").replace("MultiMod = 1", "MultiMod = 12")
             mod = 25
         cfg = cfg.replace("EmitMod = 1", "EmitMod = %d" % mod).replace("EmitPick = 0", "EmitPick = %d" % (ctx.seed % mod))
         cfg = cfg.replace("INVARIANTS ToolMatchesModuloKnown IdenticalIsSilent", "INVARIANTS ToolMatchesModuloKnown IdenticalIsSilent EmitCase")
